@@ -510,6 +510,54 @@ def _read_record(j: Judge, b: go.Built, stream: io.BytesIO, cv: bool, fault: str
     return j.call(site, lambda: b.codec.parse(data, cv)) if ok else (False, data)
 
 
+def _scribble_obj(ch: Any, obj: Any, depth: int, budget: list[int]) -> int:
+    """Write into a parsed object in place, a drawn few places anywhere in it; returns how many writes took."""
+    import dataclasses  # noqa: PLC0415
+
+    if depth > 6 or budget[0] <= 0:
+        return 0
+    done = 0
+    if isinstance(obj, list):
+        items: list[tuple[Any, Any]] = [(i, v) for i, v in enumerate(obj)]
+    elif isinstance(obj, dict):
+        items = sorted(obj.items(), key=lambda kv: repr(kv[0]))
+    elif dataclasses.is_dataclass(obj) and not isinstance(obj, type):
+        items = [(f.name, getattr(obj, f.name, None)) for f in dataclasses.fields(obj)]
+    else:
+        return 0
+    for key, value in items:
+        if budget[0] <= 0:
+            break
+        if isinstance(value, (list, dict)) or (dataclasses.is_dataclass(value) and not isinstance(value, type)):
+            done += _scribble_obj(ch, value, depth + 1, budget)
+        if not ch.chance(1, 3, "scribble.here?"):
+            continue
+        budget[0] -= 1
+        if isinstance(value, bool) or value is None:
+            new: Any = not value if isinstance(value, bool) else None
+        elif isinstance(value, int):
+            new = value ^ 1
+        elif isinstance(value, bytes):
+            new = (bytes([value[0] ^ 1]) + value[1:]) if value else b"\x51"
+        elif isinstance(value, list):
+            new = value[:-1] if value else value
+        elif isinstance(value, tuple):
+            new = value[:-1]
+        else:
+            continue
+        try:
+            if isinstance(obj, list):
+                obj[key] = new
+            elif isinstance(obj, dict):
+                obj[key] = new
+            else:
+                setattr(obj, key, new)
+            done += 1
+        except Exception:  # noqa: BLE001 -- frozen dataclass, validating setter: the write did not take, which is fine too
+            pass
+    return done
+
+
 def _store(ctx: Ctx, j: Judge) -> None:
     ch = ctx.ch
     faults = bool(ctx.cfg.get("faults"))
@@ -558,6 +606,17 @@ def _store(ctx: Ctx, j: Judge) -> None:
         _b64(ctx, j, b, obj)
         _consume(ctx, j, b.codec, obj, b.valid, "valid")
         objs.append(obj)
+        if ch.chance(1, 3, "store.scribble?"):
+            # what parse hands out is the reader's own: it writes into it (transactions inside a psbt, lists, maps, scripts),
+            # and whoever reads the same octets next is owed the object those octets spell, not the one the first reader left
+            ok1, obj1 = _read_record(j, b, io.BytesIO(_record(b)), cv, "valid")  # the first reader's own copy: `obj` is kept for the torn write below
+            n_edits = _scribble_obj(ch, obj1, 0, [6 + ch.draw(20, "scribble.budget")]) if ok1 else 0
+            ok2, obj2 = _read_record(j, b, io.BytesIO(_record(b)), cv, "valid")
+            if ok2:
+                with ctx.must_succeed(P5, "serialize-equals-writer", site):
+                    ser2 = b.codec.ser(obj2, b.valid)
+            j.check(P5, "parse-independent-of-earlier-readers", ok2 and ser2 == ser, lambda: f"{b.name} read a second time after the first reader wrote into its object ({n_edits} edits): " + (f"{ser2.hex()[:120]} != {ser.hex()[:120]}" if ok2 else f"refused: {obj2}"), f"{b.name}.parse/second-reader")
+            ctx.fault("reader-writes-into-parsed-object")
         ctx.state(f"{b.name}:valid:cv={cv}")
     if not faults:
         return
